@@ -9,7 +9,7 @@ from ..algebra import Extractor, Rat, Unsupported
 from ..cfg import CFG
 from ..core import Ctx
 from ..model import body_stmts, dotted, kwarg, norm, walk_no_nested
-from .common import assigned_value, enclosing, prog, resolve_local
+from .common import assigned_value, enclosing, is_cmp, prog, resolve_local
 
 CLS = "CorpusShufflingTool"
 
@@ -119,7 +119,7 @@ def rule_perturbations(ctx: Ctx):
         ctx.check(okz, "R-C19-3", f, seg, "magnitude 0: shift amplitude vanishes, the unit is re-added with its own start and end",
                   bad_detail=f"shift is not the identity at magnitude 0 ({why})", key="shift-zero")
         wl = [w for w in ast.walk(I) if isinstance(w, ast.While)]
-        ctx.check(len(wl) == 1 and norm(wl[0].test) in (f"{norm(seg.args[0])} >= {norm(seg.args[1])}",) if seg is not None and isinstance(seg, ast.Call) else False,
+        ctx.check(len(wl) == 1 and is_cmp(wl[0].test, norm(seg.args[0]), ">=", norm(seg.args[1])) if seg is not None and isinstance(seg, ast.Call) else False,
                   "R-C19-2", f, wl[0] if wl else None, "shifted ends are redrawn until start < end: only positive-duration units", key="shift-positive")
     # ---------------- false negatives
     f = ctx.fn(f"{CLS}.false_neg_shuffle", "R-C19-2")
